@@ -11,6 +11,11 @@ C33 checker.  One real node per case (memberlist mock transport, recording).
   witness <ltime>                                 => ok     (a remote user event with that Lamport time: moves the event clock)
   query <nameLen> <payloadLen|n> <nFilterNodes> <relayFactor> <t|f ack> <timeoutNs>
                                                   => ok delivered=<0|1> sent=<len> idw=<bytes of the random ID> | err-size delivered=0 sent=- | err-other
+  bigmember <tagLen>                              => ok <port>   (one more alive member big-<n> whose tags {t: x…} make its record large)
+  iquery <conflict k|installkey _|listkeys _|ping _> <t|f ack>
+                                                  => ok sent=<len> idw=<w> resp=<sent|refused|none> pkts=<lens> | err-size sent=- | err-other
+        an INTERNAL query (_serf_…) issued on the node; its own handler answers through respondWithMessageAndResponse.
+        conflict answers (the Member record) are modelled exactly; key / ping answers are judged by the monitor only.
   members <k>                                     => ok     (k fake alive members, protocol 5, joined through the memberlist event delegate: relay targets)
   respond <payloadLen|n>                          => ok pkts=<lens of the response (type 5) and relay (type 9) packets written to the transport, in order>
                                                      | err-size pkts=<…> | err-other pkts=<…>
@@ -44,6 +49,8 @@ structure St where
   pending : Option (Nat × Nat × Int × Nat) := none
   /-- fake alive members added through the event delegate -/
   fakes : Nat := 0
+  /-- members with a large record: (port, length of the value of tag `t`), named big-1, big-2, … -/
+  bigs : List (Nat × Nat) := []
   deriving Inhabited
 
 def rep (c : UInt8) (n : Nat) : Bytes := List.replicate n c
@@ -90,6 +97,17 @@ def mkQuery (s : St) (idw nameLen : Nat) (payload : Option Nat) (nFilter rf : Na
   { ltime := s.queryClock, id := idOfWidth idw, addr := s.addr, port := s.port, sourceNode := s.nodeName,
     filters := filters, flags := if ack then 1 else 0, relayFactor := rf, timeout := timeout,
     name := rep 113 nameLen, payload := optRep 112 payload }
+
+def ascii (s : String) : Bytes := s.toUTF8.toList
+
+/-- the answer of the `_serf_conflict` handler about member big-k: messageConflictResponseType (6) and
+the msgpack encoding of the Member record (fields in sorted order) -/
+def conflictAnswer (addr : Option Bytes) (k port tagLen : Nat) : Bytes :=
+  encodeMessage 6 (.map [
+    (.raw (ascii "Addr"), putBytes addr), (.raw (ascii "DelegateCur"), .uint 5), (.raw (ascii "DelegateMax"), .uint 5),
+    (.raw (ascii "DelegateMin"), .uint 2), (.raw (ascii "Name"), .raw (ascii s!"big-{k}")), (.raw (ascii "Port"), .uint port),
+    (.raw (ascii "ProtocolCur"), .uint 2), (.raw (ascii "ProtocolMax"), .uint 5), (.raw (ascii "ProtocolMin"), .uint 1),
+    (.raw (ascii "Status"), .uint 1), (.raw (ascii "Tags"), .map [(.raw (ascii "t"), .raw (rep 120 tagLen))])])
 
 def parseInt (s : String) : Option Int :=
   if s.startsWith "-" then (String.ofList (s.toList.drop 1)).toNat?.map (fun n => -(n : Int))
@@ -181,6 +199,59 @@ def step (s : St) (op : List String) (impl : String) : LineOut St :=
           { state := s', model := some "ok delivered=1 sent=? idw=?", monitor := mon }
         else { state := s', model := none, monitor := mon }
     | _, _, _, _, _ => { state := s, model := some "bad-op" }
+  | ["bigmember", n] =>
+    if !s.alive then { state := s, model := some "bad-op", monitor := panicMon } else
+    match n.toNat?, ((impl.splitOn " ").getD 1 "").toNat? with
+    | some tagLen, some port =>
+      { state := { s with bigs := s.bigs ++ [(port, tagLen)], fakes := s.fakes + 1 }, model := none, monitor := panicMon }
+    | _, _ => { state := s, model := none, monitor := some ("malformed", impl) }
+  | ["iquery", kind, arg, ack] =>
+    if !s.alive then { state := s, model := some "bad-op", monitor := panicMon } else
+    let st := firstTok impl
+    let pk := lens (kv impl "pkts")
+    let sent := lens (kv impl "sent")
+    -- property monitor: whatever the query's name, no response above the limit, no query above its limit
+    let mon :=
+      match panicMon with
+      | some m => some m
+      | none =>
+        if pk.any (· > s.cfg.rLimit) then
+          some ("response-oversize-sent", s!"the answer to internal query {kind} went out with {pk} bytes, limit {s.cfg.rLimit}")
+        else if st == "ok" && sent.any (· > s.cfg.qLimit) then
+          some ("query-oversize-sent", s!"query of {sent} bytes sent with limit {s.cfg.qLimit}")
+        else none
+    let stepped : Bool := (clocks (query s.cfg 0).trace).contains "queryClock.Increment"
+    let s' := if stepped then { s with queryClock := s.queryClock + 1 } else s
+    if kind != "conflict" then
+      -- key handlers / ping: answer texts are not modelled; the monitor judges the packets
+      { state := s', model := none, monitor := mon }
+    else
+      match arg.toNat? with
+      | none => { state := s, model := some "bad-op" }
+      | some k =>
+        match s.bigs[k - 1]? with
+        | none => { state := s, model := some "bad-op" }
+        | some (port, tagLen) =>
+          let mk (w : Nat) : Query :=
+            { ltime := s.queryClock, id := idOfWidth w, addr := s.addr, port := s.port, sourceNode := s.nodeName,
+              filters := none, flags := if ack == "t" then 1 else 0, relayFactor := 0, timeout := 3600000000000,
+              name := ascii "_serf_conflict", payload := some (ascii s!"big-{k}") }
+          let verdict (w : Nat) : Bool := (query s.cfg (qEncLen (mk w))).ok
+          match (kv impl "idw").toNat? with
+          | some w =>
+            let enc := qEncLen (mk w)
+            if (query s.cfg enc).ok then
+              let r : QueryResp := { ltime := s.queryClock, id := idOfWidth w, from_ := s.nodeName, flags := 0,
+                                     payload := some (conflictAnswer s.addr k port tagLen) }
+              let len := respEncLen r
+              if (respondWith s.cfg len).effects.contains "SendToAddress" then
+                { state := s', model := some s!"ok sent={enc} idw={w} resp=sent pkts={len}", monitor := mon }
+              else { state := s', model := some s!"ok sent={enc} idw={w} resp=refused pkts=-", monitor := mon }
+            else { state := s', model := some "err-size sent=-", monitor := mon }
+          | none =>
+            if [1, 2, 3, 5].all (fun w => !verdict w) then { state := s', model := some "err-size sent=-", monitor := mon }
+            else if [1, 2, 3, 5].all verdict then { state := s', model := some "ok sent=? idw=?", monitor := mon }
+            else { state := s', model := none, monitor := mon }
   | ["members", k] =>
     if !s.alive then { state := s, model := some "bad-op", monitor := panicMon } else
     match k.toNat? with
